@@ -28,6 +28,11 @@ pub struct Knobs {
     pub track: bool,
     /// nowait monitors on (C14, C19 runs)
     pub nowait: bool,
+    /// the first `stall` sleep()/yield_now() calls of every thread in an
+    /// execution return without yielding to loom: the thread may run on while
+    /// its peer stays frozen (a peer descheduled for a long time), which
+    /// loom's yield (always lets the others run) cannot produce
+    pub stall: u32,
 }
 
 impl Default for Knobs {
@@ -39,6 +44,7 @@ impl Default for Knobs {
             tick: 1,
             track: true,
             nowait: true,
+            stall: 0,
         }
     }
 }
@@ -77,6 +83,7 @@ pub(crate) struct PerThread {
     pub spin: [u32; 4],
     pub peer: Vec<usize>,
     pub nowait: Option<(NoWait, u64, Vec<usize>)>,
+    pub unyielded: u32,
 }
 
 pub(crate) struct Region {
@@ -152,6 +159,7 @@ pub(crate) fn with_thread<R>(f: impl FnOnce(&mut Exec, usize) -> R) -> R {
                         spin: [0; 4],
                         peer: Vec::new(),
                         nowait: None,
+                        unyielded: 0,
                     },
                 ));
                 e.threads.len() - 1
@@ -342,6 +350,18 @@ pub fn nowait<R>(kind: NoWait, f: impl FnOnce() -> R) -> R {
         }
     });
     r
+}
+
+/// Should this sleep()/yield_now() really yield to loom?
+pub(crate) fn should_yield() -> bool {
+    with_thread(|e, i| {
+        if e.threads[i].1.unyielded < e.knobs.stall {
+            e.threads[i].1.unyielded += 1;
+            false
+        } else {
+            true
+        }
+    })
 }
 
 /// Is the calling loom thread inside a no-wait region?
